@@ -18,8 +18,8 @@ EXHAUSTIVE = {"quick": False, "thorough": False}
 
 def floors(tier):
     q = tier == "quick"
-    return {"c05.model": 5000 if q else 300000, "c05.paths_agree": 5000 if q else 300000, "c05.structure": 5000 if q else 300000,
-            "c05.purge": 300 if q else 20000}
+    return {"c05.model": 40000 if q else 4000000, "c05.paths_agree": 40000 if q else 4000000, "c05.structure": 40000 if q else 4000000,
+            "c05.purge": 3000 if q else 300000}
 
 
 def plan(tier, seed):
